@@ -1,4 +1,7 @@
 import DoltVerif.Lemmas.VcsOpsExec
+import DoltVerif.Lemmas.VcsOpsSchemaExec
+import DoltVerif.Lemmas.VcsOpsDiffTable
+import DoltVerif.Lemmas.VcsOpsWfb
 /-!
 C32 — Diffs and patches describe exactly the change between two commits.
 
@@ -67,7 +70,8 @@ theorem execTs_patchTable (n : String) (f t : Option Table)
     | none => simp [patchTable, execTs_cons, execT]
     | some tt => exact execTs_patch_same n ft tt (hf ft rfl) (ht tt rfl) (hc ft tt rfl rfl) (hnn tt rfl)
 
-theorem exec_patch_names (a b : Root) (ha : RootWF a) (hb : RootWF b) (hc : SameCols a b) (hnn : NamesNodup b)
+theorem exec_patch_names (a b : Root)
+    (htab : ∀ n, execTs (get a n) (patchTable n (get a n) (get b n)) = some (get b n))
     (ns : List String) (hns : ns.Nodup) :
     ∀ r, Sorted ltStr (keys r) → (∀ n ∈ ns, get r n = get a n) →
     ∃ r', exec (ns.flatMap (fun n => patchTable n (get a n) (get b n))) r = some r' ∧
@@ -80,9 +84,7 @@ theorem exec_patch_names (a b : Root) (ha : RootWF a) (hb : RootWF b) (hc : Same
     intro r hr hinv
     have hkn := List.nodup_cons.mp hns
     simp only [List.flatMap_cons]
-    rw [exec_append, exec_lift n _ (stmtTable_patchTable n _ _) r hr, hinv n List.mem_cons_self,
-      execTs_patchTable n (get a n) (get b n) (fun x hx => ha.2 n x hx) (fun x hx => hb.2 n x hx)
-        (fun ft tt h1 h2 => hc n ft tt h1 h2) (fun tt h => hnn n tt h)]
+    rw [exec_append, exec_lift n _ (stmtTable_patchTable n _ _) r hr, hinv n List.mem_cons_self, htab n]
     simp only [Option.map_some, Option.bind_some]
     have hr1 := sorted_setEntry r hr n (get b n)
     have hinv1 : ∀ n' ∈ rest, get (setEntry r n (get b n)) n' = get a n' := by
@@ -107,15 +109,16 @@ theorem exec_patch_names (a b : Root) (ha : RootWF a) (hb : RootWF b) (hc : Same
 /-- **patch_roundtrip (data and tables).**  For well-formed roots whose common tables have the same
 column list, executing `patch a b` on `a` succeeds and yields exactly `b` — every table created,
 dropped, and every row inserted, updated (only the changed columns) or deleted. -/
-theorem patch_roundtrip_partial (a b : Root) (ha : RootWF a) (hb : RootWF b)
-    (hc : SameCols a b) (hnn : NamesNodup b) : exec (patch a b) a = some b := by
+theorem patch_roundtrip_of_tables (a b : Root) (ha : RootWF a) (hb : RootWF b)
+    (htab : ∀ n, execTs (get a n) (patchTable n (get a n) (get b n)) = some (get b n)) :
+    exec (patch a b) a = some b := by
   unfold patch
   have hnames := nodup_of_sorted strictTotal_ltStr _ (sorted_unionKeys strictTotal_ltStr (keys a) (keys b))
   have hn1 : ((unionKeys ltStr (keys a) (keys b)).filter (fun n => !(has b n))).Nodup := List.Nodup.sublist List.filter_sublist hnames
   have hn2 : ((unionKeys ltStr (keys a) (keys b)).filter (fun n => has b n)).Nodup := List.Nodup.sublist List.filter_sublist hnames
   dsimp only
   rw [exec_append]
-  obtain ⟨r1, e1, s1, g1, o1⟩ := exec_patch_names a b ha hb hc hnn _ hn1 a ha.1 (fun _ _ => rfl)
+  obtain ⟨r1, e1, s1, g1, o1⟩ := exec_patch_names a b htab _ hn1 a ha.1 (fun _ _ => rfl)
   rw [e1]
   simp only [Option.bind_some]
   have hinv2 : ∀ n ∈ (unionKeys ltStr (keys a) (keys b)).filter (fun n => has b n), get r1 n = get a n := by
@@ -125,7 +128,7 @@ theorem patch_roundtrip_partial (a b : Root) (ha : RootWF a) (hb : RootWF b)
     have h1 := (List.mem_filter.mp hn).2
     have h2 := (List.mem_filter.mp h').2
     simp [h1] at h2
-  obtain ⟨r2, e2, s2, g2, o2⟩ := exec_patch_names a b ha hb hc hnn _ hn2 r1 s1 hinv2
+  obtain ⟨r2, e2, s2, g2, o2⟩ := exec_patch_names a b htab _ hn2 r1 s1 hinv2
   rw [e2]
   congr 1
   apply sorted_ext strictTotal_ltStr _ _ s2 hb.1
@@ -146,6 +149,98 @@ theorem patch_roundtrip_partial (a b : Root) (ha : RootWF a) (hb : RootWF b)
     rw [mem_unionKeys] at hu
     rw [get_none_of_not_mem a n (fun h => hu (Or.inl h)), get_none_of_not_mem b n (fun h => hu (Or.inr h))]
 
+theorem patch_roundtrip_partial (a b : Root) (ha : RootWF a) (hb : RootWF b)
+    (hc : SameCols a b) (hnn : NamesNodup b) : exec (patch a b) a = some b :=
+  patch_roundtrip_of_tables a b ha hb (fun n =>
+    execTs_patchTable n (get a n) (get b n) (fun x hx => ha.2 n x hx) (fun x hx => hb.2 n x hx)
+      (fun ft tt h1 h2 => hc n ft tt h1 h2) (fun tt h => hnn n tt h))
+
+/-- what a patch needs of two roots whose tables may have gained and lost columns:
+* `append` — in every common table the second column list is the first one's surviving columns (in
+  their order) followed by the new ones: `ALTER TABLE … ADD` can only append
+  (`patch_roundtrip_full_false` is the counterexample dolt reproduces);
+* distinct column names on both sides (statements address columns by name);
+* `alias` — where the column list changed, two rows whose *stored tuples* coincide are also equal
+  after re-laying: dolt's diff compares stored tuples, so otherwise it misses the row and the patch
+  lacks its `UPDATE` (`patch_roundtrip_alias_false`; dolt replay in design/C32.md). -/
+structure Patchable (a b : Root) : Prop where
+  append : ∀ n ft tt, get a n = some ft → get b n = some tt → ColsAppend ft.cols tt.cols
+  namesA : NamesNodup a
+  namesB : NamesNodup b
+  alias : ∀ n ft tt, get a n = some ft → get b n = some tt → ft.cols ≠ tt.cols → NoTupleAlias ft tt
+
+/-- the patch of one table name in the general case -/
+theorem execTs_patchTable_cols (n : String) (f t : Option Table)
+    (hf : ∀ x, f = some x → x.WF) (ht : ∀ x, t = some x → x.WF)
+    (happ : ∀ ft tt, f = some ft → t = some tt → ColsAppend ft.cols tt.cols)
+    (hfn : ∀ ft, f = some ft → (ft.cols.map (·.name)).Nodup)
+    (htn : ∀ tt, t = some tt → (tt.cols.map (·.name)).Nodup)
+    (hal : ∀ ft tt, f = some ft → t = some tt → ft.cols ≠ tt.cols → NoTupleAlias ft tt) :
+    execTs f (patchTable n f t) = some t := by
+  cases f with
+  | none =>
+    cases t with
+    | none => rfl
+    | some tt => exact execTs_patch_create n tt (ht tt rfl)
+  | some ft =>
+    cases t with
+    | none => simp [patchTable, execTs_cons, execT]
+    | some tt =>
+      by_cases hc : ft.cols = tt.cols
+      · exact execTs_patch_same n ft tt (hf ft rfl) (ht tt rfl) hc (htn tt rfl)
+      · exact execTs_patch_cols n ft tt (hf ft rfl) (ht tt rfl) hc (hfn ft rfl) (htn tt rfl)
+          (happ ft tt rfl rfl) (hal ft tt rfl rfl hc)
+
+/-- **patch_roundtrip.**  For well-formed roots satisfying `Patchable`, executing `patch a b` on `a`
+— per table the `DROP TABLE` / `CREATE TABLE`, then the `ALTER TABLE … DROP` of every removed column
+and the `ALTER TABLE … ADD` of every new one, then the `INSERT` / `UPDATE` / `DELETE` statements —
+succeeds and yields exactly `b`: data and schema. -/
+theorem patch_roundtrip (a b : Root) (ha : RootWF a) (hb : RootWF b) (hp : Patchable a b) :
+    exec (patch a b) a = some b :=
+  patch_roundtrip_of_tables a b ha hb (fun n =>
+    execTs_patchTable_cols n (get a n) (get b n) (fun x hx => ha.2 n x hx) (fun x hx => hb.2 n x hx)
+      (fun ft tt h1 h2 => hp.append n ft tt h1 h2) (fun ft h => hp.namesA n ft h) (fun tt h => hp.namesB n tt h)
+      (fun ft tt h1 h2 hc => hp.alias n ft tt h1 h2 hc))
+
+/-- a column dropped, two added, rows inserted / updated / deleted: the hypotheses are satisfiable -/
+example : exec (patch [("t", ⟨[⟨"a", .int⟩, ⟨"b", .str⟩], [(1, [.int 1, .str "x"]), (2, [.null, .null])]⟩)]
+      [("t", ⟨[⟨"b", .str⟩, ⟨"c", .int⟩, ⟨"d", .str⟩], [(1, [.str "y", .int 7, .null]), (3, [.null, .null, .str "z"])]⟩)])
+      [("t", ⟨[⟨"a", .int⟩, ⟨"b", .str⟩], [(1, [.int 1, .str "x"]), (2, [.null, .null])]⟩)]
+    = some [("t", ⟨[⟨"b", .str⟩, ⟨"c", .int⟩, ⟨"d", .str⟩], [(1, [.str "y", .int 7, .null]), (3, [.null, .null, .str "z"])]⟩)] := by
+  decide
+
+/-- without `alias` the statement is false: column `a` (value 5) is dropped while `b` goes from NULL
+to 5 — the stored tuples `(5)` and `(5)` coincide, the diff and therefore the patch miss the row. -/
+theorem patch_roundtrip_alias_false :
+    ¬ (∀ a b : Root, RootWF a → RootWF b →
+        (∀ n ft tt, get a n = some ft → get b n = some tt → ColsAppend ft.cols tt.cols) →
+        NamesNodup a → NamesNodup b → exec (patch a b) a = some b) := by
+  intro h
+  have := h [("t", ⟨[⟨"a", .int⟩, ⟨"b", .int⟩], [(1, [.int 5, .null])]⟩)]
+            [("t", ⟨[⟨"b", .int⟩], [(1, [.int 5])]⟩)]
+            (rootWF_of_b _ (by decide)) (rootWF_of_b _ (by decide))
+            (by
+              intro n ft tt h1 h2
+              by_cases e : n = "t"
+              · subst e
+                simp only [VcsOps.get, if_true, Option.some.injEq] at h1 h2
+                subst h1 h2
+                unfold ColsAppend
+                decide
+              · simp [VcsOps.get, Ne.symm e] at h1)
+            (by
+              intro n tt h1
+              by_cases e : n = "t"
+              · subst e; simp only [VcsOps.get, if_true, Option.some.injEq] at h1; subst h1; decide
+              · simp [VcsOps.get, Ne.symm e] at h1)
+            (by
+              intro n tt h1
+              by_cases e : n = "t"
+              · subst e; simp only [VcsOps.get, if_true, Option.some.injEq] at h1; subst h1; decide
+              · simp [VcsOps.get, Ne.symm e] at h1)
+  revert this
+  decide
+
 example : exec (patch [("t", ⟨[⟨"a", .int⟩], [(1, [.int 1]), (2, [.null])]⟩), ("u", ⟨[], [(1, [])]⟩)]
       [("t", ⟨[⟨"a", .int⟩], [(2, [.int 5]), (3, [.null])]⟩), ("v", ⟨[⟨"s", .str⟩], [(0, [.str "it's"])]⟩)])
       [("t", ⟨[⟨"a", .int⟩], [(1, [.int 1]), (2, [.null])]⟩), ("u", ⟨[], [(1, [])]⟩)]
@@ -165,5 +260,38 @@ theorem patch_roundtrip_full_false : ¬ patch_roundtrip_full := by
             (rootWF_of_b _ (by decide)) (rootWF_of_b _ (by decide))
   revert this
   decide
+
+/-! ### diff_tables_agree -/
+
+/-- **diff_tables_agree.**  What `dolt_diff_<t>` promises on a *linear* history
+`HEAD = c₀ → c₁ → … → cₙ` (`IsChain`: every commit's only parent is the next one, the last has none —
+no merge commit and no commit with two children in HEAD's ancestry; for those the scan registers one
+child per commit and loses an edge: known finding `C32/dolt_diff_t/merge-edge-missing`):
+the rows are exactly `chainDiff`, i.e. the concatenation, newest first, of
+`diff(c₀, WORKING)`, `diff(c₁, c₀)`, …, `diff(cₙ, cₙ₋₁)` — each the stored-table diff of the two
+adjacent commits with both sides laid out by the current working column list, tagged
+`(to_commit, from_commit)` — skipping pairs whose tables are equal and ending at the first pair whose
+newer side has no table `t`.  (`none` iff the working root has no table `t`.) -/
+theorem diff_tables_agree (d : Db) (t : String) (wt : Table) (rest : List Nat)
+    (hw : get d.ws.working t = some wt) (hch : IsChain d (d.headId :: rest)) (hnd : (d.headId :: rest).Nodup)
+    (hlen : rest.length + 1 ≤ d.commits.length) :
+    d.diffTable t = some (chainDiff d t wt.cols none (some wt) (d.headId :: rest)) := by
+  unfold Db.diffTable
+  simp only [hw]
+  rw [walk_chain d d.headId rest hch hnd hlen]
+  congr 1
+  have := diffTableAux_chain d t wt.cols (d.headId :: rest) [(d.headId, none, some wt)] [] none (some wt) hch hnd
+    (by intro c r e; cases e; simp)
+  simpa using this
+
+/-- the hypotheses are satisfiable: `main` of `exDb` is the chain 2 → 1 → 0; with an extra uncommitted
+row the table function is `diff(2, WORKING) ++ diff(1, 2) ++ diff(0, 1)` -/
+def exDb' : Db := (exDb.apply (.dml (.insert "t" 7 [.int 1, .null, .null]))).2
+
+example : exDb'.headId = 2 ∧ exDb'.parentsOf 2 = [1] ∧ exDb'.parentsOf 1 = [0] ∧ exDb'.parentsOf 0 = [] ∧
+    exDb'.diffTable "t" = some (chainDiff exDb' "t" [⟨"a", .int⟩, ⟨"b", .str⟩, ⟨"c", .int⟩] none
+      (get exDb'.ws.working "t") [2, 1, 0]) ∧
+    (exDb'.diffTable "t").map List.length = some 4 := by
+  decide +kernel
 
 end DoltVerif.C32
